@@ -37,9 +37,11 @@ func runC17Net(o *opts) (*summary, error) {
 	// what the farm answers with: set before every call
 	var mu sync.Mutex
 	var answer func(req []byte) [][]byte
+	nreq := 0 // request datagrams that reached the farm since the current call was set up
 	reply := func(req []byte) [][]byte {
 		mu.Lock()
 		defer mu.Unlock()
+		nreq++
 		if answer == nil {
 			return nil
 		}
@@ -133,6 +135,7 @@ func runC17Net(o *opts) (*summary, error) {
 		return m
 	}
 	type kept struct {
+		nreq  int
 		op    string
 		path  string
 		cs    callSpec
@@ -144,13 +147,28 @@ func runC17Net(o *opts) (*summary, error) {
 	do := func(op, path string) *kept {
 		cs := g.call(op, serials[path])
 		k := &kept{op: op, path: path, cs: cs}
+		// on the broadcast path, every third call: datagrams that are not for this call (another controller's reply, a
+		// wrong length) arrive ahead of the reply - they are skipped, and nothing is sent a second time
+		strays := path == "bcast" && rng.Intn(3) == 0
 		mu.Lock()
+		nreq = 0
 		answer = func(req []byte) [][]byte {
 			m := valid(op, req)
 			k.deliv = []any{M{"b": ints(m), "keep": true}}
+			if strays {
+				other := valid(op, req)
+				other[4] ^= 0x5a
+				return [][]byte{other, other[:17], m}
+			}
 			return [][]byte{m}
 		}
 		mu.Unlock()
+		defer func() {
+			time.Sleep(2 * time.Millisecond) // (a request sent in reaction to a stray is on its way by now)
+			mu.Lock()
+			k.nreq = nreq
+			mu.Unlock()
+		}()
 		if p, msg := guard(func() { k.v, k.err = cs.call(u) }); p {
 			k.ret = M{"t": "panic", "msg": msg}
 			return k
@@ -161,7 +179,13 @@ func runC17Net(o *opts) (*summary, error) {
 	discover := func() *kept {
 		cs := g.call("GetDevices", 0)
 		k := &kept{op: "GetDevices", path: "discovery", cs: cs}
+		defer func() {
+			mu.Lock()
+			k.nreq = nreq
+			mu.Unlock()
+		}()
 		mu.Lock()
+		nreq = 0
 		answer = func(req []byte) [][]byte {
 			out := [][]byte{}
 			for i := 0; i < 3; i++ {
@@ -242,7 +266,7 @@ func runC17Net(o *opts) (*summary, error) {
 				mu.Unlock()
 				w.put(M{"op": k.op, "a": k.cs.args, "sent": []any{}, "route": M{"m": "none"}, "ncalls": 1, "delivered": k.deliv,
 					"ret": k.ret, "ret_later": retLater, "render": render(k.v, k.err), "cfg": map[bool]M{true: cfgD, false: cfgP}[k.op == "GetDevices"],
-					"kept": M{"path": k.path, "later": later}}, "kept-"+k.path, fmt.Sprintf("%s/%s/%d", k.op, k.path, rep))
+					"kept": M{"path": k.path, "later": later}, "nreq": k.nreq}, "kept-"+k.path, fmt.Sprintf("%s/%s/%d", k.op, k.path, rep))
 			}
 		}
 	}
